@@ -13,7 +13,8 @@ from ..tissue import PRNG
 PROP = "C20"
 RULE = ("(a) Hypothesis draws simple polygons (star-shaped non-convex with drawn radii, or convex), 3..80 vertices, "
         "either orientation, and a translation/scale; every cyclic shift is enumerated; area is compared with an exact "
-        "rational shoelace, perimeter with the closed-cycle length, navigation with the stored cycle. (b) tissues and "
+        "rational shoelace, perimeter with the closed-cycle length, navigation with the stored cycle; one Cell object "
+        "is then edited in place 6 times (list reversed / shifted / coordinates mirrored) and re-checked each time. (b) tissues and "
         "hole-free sub-tissues: sum of |area| = area of the outline obtained by chaining mesh edges owned by exactly "
         "one cell; neighbours = cells sharing a vertex. Non-trivial = non-convex polygon or >= 10 vertices; tissue "
         "with >= 5 cells; distinct = fingerprint of the drawn parameters.")
@@ -113,6 +114,44 @@ def check_polygon(p, ctx):
                     v = call(cell.get_next_vertex, v)
                 if v is not vs[0] or len(set(seen)) != n:
                     return ctx.violation("navigation-cycle", p, observed=len(set(seen)), expected=n)
+    # the same Cell object edited in place (as test_get_area_sign does): reversal of the stored list, cyclic shift,
+    # mirror image of the coordinates; after every edit area, sign and navigation follow the current cycle
+    cell, vs = build_cell(pts)
+    cur = list(vs)
+    expected = -a_true
+    edits = PRNG(p["seed"] ^ 0x5EED).integers(0, 3, size=6)
+    call(cell.get_next_vertex, vs[0])          # navigate once before any edit
+    call(cell.get_perimeter)
+    for step, ed in enumerate(edits):
+        if ed == 0:
+            cur = cur[::-1]
+            cell.vertices = cur
+            expected = -expected
+        elif ed == 1:
+            k = 1 + step % (n - 1)
+            cur = cur[k:] + cur[:k]
+            cell.vertices = cur
+        else:
+            for v in cur:
+                v.y = -v.y
+            expected = -expected
+        a = call(cell.get_area)
+        sg = call(cell.get_area_sign)
+        if abs(a - expected) > tolA or sg != (1 if expected > 0 else -1):
+            return ctx.violation("area-after-in-place-edit", p, observed=[float(a), sg], expected=expected,
+                                 detail={"edits": [int(x) for x in edits[:step + 1]]})
+        for i in (0, n // 2, n - 1):
+            nx = call(cell.get_next_vertex, cur[i])
+            pv = call(cell.get_previous_vertex, cur[i])
+            if nx is not cur[(i + sg) % n] or pv is not cur[(i - sg) % n]:
+                return ctx.violation("navigation-after-in-place-edit", p, observed=[nx.id, pv.id],
+                                     expected=[cur[(i + sg) % n].id, cur[(i - sg) % n].id],
+                                     detail={"edits": [int(x) for x in edits[:step + 1]], "i": i})
+        per = call(cell.get_perimeter)
+        if abs(per - per_true) > 1e-11 * per_true:
+            return ctx.violation("perimeter-after-in-place-edit", p, observed=float(per), expected=per_true,
+                                 detail={"edits": [int(x) for x in edits[:step + 1]]})
+    ctx.count("in-place-edits", len(edits))
     # scaling and translation laws (independent of the exact oracle)
     cell, _ = build_cell(pts)
     f = p["factor"]
